@@ -22,4 +22,6 @@ MUTANTS = [
      'edits': [(B, "    if archive.is_null() || file.is_null() || buffer.is_null() {\n        return MLAStatus::BadAPIArgument;\n    }\n    let Ok(length_usize)", "    if buffer.is_null() {\n        return MLAStatus::BadAPIArgument;\n    }\n    if file.is_null() || archive.is_null() {\n        return MLAStatus::BadAPIArgument;\n    }\n    let Ok(length_usize)")]},
     # correct twin of the seeded change C20 #2 (BufWriter in front of the callbacks, flushed in a loop with the result examined)
     {'id': 'c20-benign-bufwriter-flushed-in-loop', 'props': ['C20'], 'expect': 'silent', 'patch': 'patches/c20-bufwriter-flushed-in-loop.diff'},
+    # correct twin of the seeded change C20 #4 (write adapter that drains the buffer itself, handing over the unwritten tail)
+    {'id': 'c20-benign-draining-write-advances', 'props': ['C20', 'C13'], 'expect': 'silent', 'patch': 'patches/c20-draining-write-advances.diff'},
 ]
